@@ -40,3 +40,10 @@ def run(tier, seed):
     return common.finish(PROP, tier, seed, total, RULE, t0, ASSUME, min_events=need,
                          extra={'builds': [v for v, _ in cfg.get('variants', [])],
                                 'trie_depth': {'{0,1,2}': cfg.get('d3'), '{-1,0,1,5}': cfg.get('d4')}})
+
+
+def rejudge(case, recs, res, variant, v):
+    if case.id == 'ctor':
+        res.merge(qrun.ctor_shard({'binary': build(variant), 'variant': variant}))
+        return
+    res.merge(qrun.rejudge_quantile(case, recs, variant).r15)
